@@ -12,11 +12,11 @@ CONSTANTS
   WakeAfterPush = TRUE
   Overflow = FALSE
   Hosts <- BothHosts
-  Muts = {"none","repaired"}
+  Muts = {"none"}
   Ops = {"o1"}
   Timers = {}
   Jobs = {"j1"}
   Owner <- OwnB
   AnyTurn = TRUE
 SPECIFICATION XSpec
-INVARIANTS XTypeOK PendingBound TypeOK RealSafe RepBoth
+INVARIANTS XTypeOK PendingBound TypeOK RealSafe
